@@ -6255,6 +6255,14 @@ impl Deserialize for bit_vec::BitVec<u32> {
                 let storage_ptr = storage.as_ptr() as *mut u8;
                 let storage_bytes: &mut [u8] = std::slice::from_raw_parts_mut(storage_ptr, 4 * num_words);
                 deserializer.read_bytes_to_buf(storage_bytes)?;
+                // BitVec requires that there is no storage beyond the last used word and that the
+                // unused bits of that word are zero (its comparison operators rely on this). Data
+                // written by savefile always is like that, but the input may be corrupt.
+                let used_words = (numbits + 31) / 32;
+                storage.truncate(used_words);
+                if numbits % 32 != 0 {
+                    storage[used_words - 1] &= (1u32 << (numbits % 32)) - 1;
+                }
                 ret.set_len(numbits);
             }
             Ok(ret)
@@ -6432,6 +6440,14 @@ impl Deserialize for bit_vec08::BitVec<u32> {
                 let storage_ptr = storage.as_ptr() as *mut u8;
                 let storage_bytes: &mut [u8] = std::slice::from_raw_parts_mut(storage_ptr, 4 * num_words);
                 deserializer.read_bytes_to_buf(storage_bytes)?;
+                // BitVec requires that there is no storage beyond the last used word and that the
+                // unused bits of that word are zero (its comparison operators rely on this). Data
+                // written by savefile always is like that, but the input may be corrupt.
+                let used_words = (numbits + 31) / 32;
+                storage.truncate(used_words);
+                if numbits % 32 != 0 {
+                    storage[used_words - 1] &= (1u32 << (numbits % 32)) - 1;
+                }
                 ret.set_len(numbits);
             }
             Ok(ret)
